@@ -500,10 +500,12 @@ theorem WFS_frame {h h' : Heap} {s : Slice} (e : arrOf h' s.arr = arrOf h s.arr)
 def oracleOf (o : List Cell → Nat × Bool) : Unit → List Cell → Nat × Bool × Unit :=
   fun _ l => ((o l).1, (o l).2, ())
 
-/-- Same outcome: both run out of fuel, or both return with slices denoting the model's lists. -/
+/-- Same outcome: both run out of fuel, or both return with slices denoting the model's lists (and `s.rest`
+is again a well-formed slice of an array of the heap, so the next `Scan` can start from it). -/
 def ScanRel : Option (Heap × St) → Scan Unit → Prop
   | none, .hang => True
-  | some (h', st'), .line r _ t => rd h' st'.rest = r ∧ rd h' st'.token = t
+  | some (h', st'), .line r _ t =>
+      rd h' st'.rest = r ∧ rd h' st'.token = t ∧ st'.rest.arr < h'.length ∧ WFS h' st'.rest
   | _, _ => False
 
 theorem scanLoopH_refines (grow : Nat → Nat → Nat) (o : List Cell → Nat × Bool) (width : Nat) (h0 : Heap) (n0 : Nat)
@@ -608,9 +610,10 @@ theorem scanLoopH_refines (grow : Nat → Nat → Nat) (o : List Cell → Nat ×
       obtain ⟨ob1, ob2, ob3⟩ := append_other grow a.1 a.2.1 a.2.2 (rd a.1 trSpace) wa1 ga1.2 wa2 ga2.2 sepa
       -- s.rest = append(s.rest, rest...)
       have hnb : n0 ≤ b.1.length := Nat.le_trans hna fb.1
-      obtain ⟨rc, _⟩ := append_read grow b.1 b.2 (rd b.1 rest) wb gb.2
+      obtain ⟨rc, wc⟩ := append_read grow b.1 b.2 (rd b.1 rest) wb gb.2
+      obtain ⟨_, gc⟩ := append_frame grow b.1 b.2 (rd b.1 rest) n0 hnb gb
       obtain ⟨oc1, _, _⟩ := append_other grow b.1 b.2 a.2.2 (rd b.1 rest) wb gb.2 ob2 (Nat.lt_of_lt_of_le ga2.2 fb.1) ob3
-      refine ⟨?_, ?_⟩
+      refine ⟨?_, ?_, gc.2, wc⟩
       · show rd c.1 c.2 = _
         rw [show rd c.1 c.2 = rd b.1 b.2 ++ rd b.1 rest from rc, show rd b.1 b.2 = rd a.1 a.2.1 ++ rd a.1 trSpace from rb,
           hfrOld b.1 rest (fa.trans fb) hrestarr, hfrOld a.1 trSpace fa htrarr, hrest, htr, show rd a.1 a.2.1 = _ from ra1]
@@ -620,7 +623,7 @@ theorem scanLoopH_refines (grow : Nat → Nat → Nat) (o : List Cell → Nat ×
       by_cases c2 : w + pwl > width
       · -- the segment does not fit any more: the line ends before it
         simp only [c2, ↓reduceIte, ScanRel]
-        exact ⟨hR, trivial⟩
+        exact ⟨hR, trivial, Nat.lt_of_lt_of_le hra hn, WFS_frame (hfr _ hra) wr⟩
       · simp only [c2, ↓reduceIte]
         rw [hpbr]
         by_cases c3 : r.2 = true
@@ -642,7 +645,8 @@ theorem scanLoopH_refines (grow : Nat → Nat → Nat) (o : List Cell → Nat ×
               · exact hseg
           obtain ⟨f1, _⟩ := append_frame grow h st.token (rd h seg') n0 hn gt
           obtain ⟨r1, _⟩ := append_read grow h st.token (rd h seg') wt gt.2
-          refine ⟨?_, ?_⟩
+          refine ⟨?_, ?_, Nat.lt_of_lt_of_le hrestarr (Nat.le_trans hn f1.1),
+            WFS_frame ((f1.2 _ hrestarr).trans (hfr _ hrestarr)) hrestw⟩
           · show rd t1.1 rest = prest
             rw [hfrOld t1.1 rest f1 hrestarr, hrest]
           · show rd t1.1 t1.2 = _
@@ -657,7 +661,9 @@ theorem scanLoopH_refines (grow : Nat → Nat → Nat) (o : List Cell → Nat ×
             rw [show rd t.1 t.2 = rd h st.token ++ rd h word from r1, hword]
           by_cases c4 : pw + psl > width
           · simp only [c4, ↓reduceIte, ScanRel]
-            exact ⟨by show rd t.1 rest = prest; rw [hfrOld t.1 rest f1 hrestarr, hrest], htok⟩
+            exact ⟨by show rd t.1 rest = prest; rw [hfrOld t.1 rest f1 hrestarr, hrest], htok,
+              Nat.lt_of_lt_of_le hrestarr (Nat.le_trans hn f1.1),
+              WFS_frame ((f1.2 _ hrestarr).trans (hfr _ hrestarr)) hrestw⟩
           · simp only [c4, ↓reduceIte]
             -- s.token = append(s.token, trSpace...) and round again
             have hn1 : n0 ≤ t.1.length := Nat.le_trans hn f1.1
@@ -672,5 +678,141 @@ theorem scanLoopH_refines (grow : Nat → Nat → Nat) (o : List Cell → Nat ×
             simp only [] at this
             rw [hr0, ht2] at this
             exact this
+
+/-! ### `Scan()` and the whole iteration -/
+
+/-- Same outcome of one `Scan()`. -/
+def ScanRelS : ScanH → Scan Unit → Prop
+  | .stop, .stop => True
+  | .hang, .hang => True
+  | .line h' st', .line r _ t => rd h' st'.rest = r ∧ rd h' st'.token = t ∧ st'.rest.arr < h'.length ∧ WFS h' st'.rest
+  | _, _ => False
+
+theorem isEmpty_iff_len {h : Heap} {s : Slice} (w : WFS h s) : (rd h s).isEmpty = (s.len == 0) := by
+  have := read_length w
+  cases hd : rd h s with
+  | nil => rw [hd] at this; simp at this; simp [← this]
+  | cons x xs => rw [hd] at this; simp at this; simp [← this]
+
+/-- `Scan()` on the heap refines `Model.Wrap.scan`. -/
+theorem scanH_refines (grow : Nat → Nat → Nat) (o : List Cell → Nat × Bool) (width : Nat) (h : Heap) (st : St)
+    (hra : st.rest.arr < h.length) (wr : WFS h st.rest) :
+    ScanRelS (scanH grow o width h st) (scan (oracleOf o) () width (rd h st.rest) ()) := by
+  unfold scanH scan
+  rw [isEmpty_iff_len wr]
+  by_cases hc : (st.rest.len == 0 || width == 0) = true
+  · simp only [hc, ↓reduceIte, ScanRelS]
+  · simp only [hc, Bool.false_eq_true, ↓reduceIte]
+    have hpos : 0 < h.length := Nat.lt_of_le_of_lt (Nat.zero_le _) hra
+    have := scanLoopH_refines grow o width h h.length hpos st.rest.len h ⟨st.rest, emptySlice⟩ 0 (Nat.le_refl _)
+      (fun _ _ => rfl) hra wr (good_empty _ h hpos) ⟨by simp [emptySlice], by simp [emptySlice]⟩
+    simp only [read_empty] at this
+    rw [read_length wr]
+    cases hres : scanLoopH grow o width st.rest.len h ⟨st.rest, emptySlice⟩ 0 with
+    | none =>
+      rw [hres] at this
+      cases hp : scanLoop (oracleOf o) () width st.rest.len (rd h st.rest) () [] 0 with
+      | hang => simp [ScanRelS]
+      | stop => rw [hp] at this; simp [ScanRel] at this
+      | line _ _ _ => rw [hp] at this; simp [ScanRel] at this
+    | some r =>
+      rw [hres] at this
+      cases hp : scanLoop (oracleOf o) () width st.rest.len (rd h st.rest) () [] 0 with
+      | hang => rw [hp] at this; simp [ScanRel] at this
+      | stop => rw [hp] at this; simp [ScanRel] at this
+      | line a b c => rw [hp] at this; simpa [ScanRel, ScanRelS] using this
+
+/-- The whole iteration refines `scanAll`: the cells each returned slice denoted when it was returned are the
+lines of the value-level model. -/
+theorem linesH_refines (grow : Nat → Nat → Nat) (o : List Cell → Nat × Bool) (width : Nat) :
+    ∀ (fuel : Nat) (h : Heap) (st : St) (acc : List (Slice × List Cell)), st.rest.arr < h.length → WFS h st.rest →
+      match linesH grow o width fuel h st acc, scanAll (oracleOf o) () width fuel (rd h st.rest) () with
+      | none, .hang => True
+      | some r, .ok ls' => r.2.map (·.2) = acc.reverse.map (·.2) ++ ls'
+      | _, _ => False := by
+  intro fuel
+  induction fuel with
+  | zero => intro h st acc _ _; simp [linesH, scanAll]
+  | succ n ih =>
+    intro h st acc hra wr
+    have hs := scanH_refines grow o width h st hra wr
+    simp only [linesH, scanAll]
+    cases hH : scanH grow o width h st with
+    | stop =>
+      rw [hH] at hs
+      cases hp : scan (oracleOf o) () width (rd h st.rest) () with
+      | stop => simp
+      | hang => rw [hp] at hs; simp [ScanRelS] at hs
+      | line _ _ _ => rw [hp] at hs; simp [ScanRelS] at hs
+    | hang =>
+      rw [hH] at hs
+      cases hp : scan (oracleOf o) () width (rd h st.rest) () with
+      | stop => rw [hp] at hs; simp [ScanRelS] at hs
+      | hang => simp
+      | line _ _ _ => rw [hp] at hs; simp [ScanRelS] at hs
+    | line h' st' =>
+      rw [hH] at hs
+      cases hp : scan (oracleOf o) () width (rd h st.rest) () with
+      | stop => rw [hp] at hs; simp [ScanRelS] at hs
+      | hang => rw [hp] at hs; simp [ScanRelS] at hs
+      | line r u t =>
+        rw [hp] at hs
+        obtain ⟨e1, e2, e3, e4⟩ := hs
+        have := ih h' st' ((st'.token, rd h' st'.token) :: acc) e3 e4
+        rw [e1] at this
+        simp only []
+        cases hl : linesH grow o width n h' st' ((st'.token, rd h' st'.token) :: acc) with
+        | none =>
+          rw [hl] at this
+          cases hq : scanAll (oracleOf o) () width n r () with
+          | hang => cases u; simp [hq]
+          | ok _ => rw [hq] at this; simp at this
+        | some res =>
+          rw [hl] at this
+          cases hq : scanAll (oracleOf o) () width n r () with
+          | hang => rw [hq] at this; simp at this
+          | ok ls'' =>
+            rw [hq] at this
+            cases u
+            simp only [hq]
+            rw [this, e2]
+            simp
+
+/-- The caller's view: `runH` (all Scans, the lines read *after* the last one, the caller's array at the end)
+against `Model.Wrap.lines`. -/
+theorem runH_refines (grow : Nat → Nat → Nat) (o : List Cell → Nat × Bool) (width : Nat) (cells spare : List Cell) :
+    match runH grow o width cells spare, lines (oracleOf o) () width cells () with
+    | none, .hang => True
+    | some r, .ok ls' => r.1 = ls' ∧ r.2 = cells ++ spare
+    | _, _ => False := by
+  have hread : rd (callerHeap cells spare) (callerSlice cells spare) = cells := by
+    simp [VaxisModel.Model.WrapHeap.read, callerHeap, callerSlice, arrOf]
+  have W : WFS (callerHeap cells spare) (callerSlice cells spare) := by
+    constructor <;> simp [callerHeap, callerSlice, arrOf]
+  have R := linesH_refines grow o width (cells.length + 1) (callerHeap cells spare)
+    ⟨callerSlice cells spare, emptySlice⟩ [] (by simp [callerHeap, callerSlice]) W
+  simp only [hread] at R
+  unfold runH lines
+  cases hl : linesH grow o width (cells.length + 1) (callerHeap cells spare) ⟨callerSlice cells spare, emptySlice⟩ [] with
+  | none =>
+    rw [hl] at R
+    cases hq : scanAll (oracleOf o) () width (cells.length + 1) cells () with
+    | hang => simp
+    | ok _ => rw [hq] at R; simp at R
+  | some res =>
+    rw [hl] at R
+    obtain ⟨hf, l⟩ := res
+    obtain ⟨f, hstab⟩ := linesH_stable grow o width _ _ _ [] hf l (by simp [callerHeap]) (by intro p hp; cases hp) hl
+    cases hq : scanAll (oracleOf o) () width (cells.length + 1) cells () with
+    | hang => rw [hq] at R; simp at R
+    | ok ls' =>
+      rw [hq] at R
+      simp only [List.reverse_nil, List.map_nil, List.nil_append] at R
+      simp only []
+      refine ⟨?_, ?_⟩
+      · rw [← R]
+        exact List.map_congr_left (fun p hp => hstab p hp)
+      · rw [f.2 0 (by simp [callerHeap])]
+        rfl
 
 end VaxisModel.Lemmas.WrapHeap
